@@ -51,7 +51,7 @@ def make_X(n, geom, rng, d=2):
     raise ValueError(geom)
 
 
-def concretise(sc, entry, seed, encoding=None, dup=False):
+def concretise(sc, entry, seed, encoding=None, dup=False, sentinel=False):
     """TLC scenario -> concrete query arguments (+ the abstract fields of the trace).  dup=True: an index candidate
     list may name a sample twice (check_indices de-duplicates: the candidate SET is what the property speaks of)"""
     rng = np.random.RandomState(seed)
@@ -81,9 +81,25 @@ def concretise(sc, entry, seed, encoding=None, dup=False):
         amode, M = "rows", len(S)
     else:
         candidates, amode, M = None, "none", 0
+    if sentinel and seed % 5 == 4:
+        # (and one fifth of the calls present the features as an integer matrix)
+        # (same scale: far-apart points make kernel models underflow, which is the models' numerics)
+        X = np.round(X).astype(int)
+        if isinstance(candidates, np.ndarray):
+            candidates = np.round(candidates).astype(int)
+    ml, classes = np.nan, (0, 1)
+    if sentinel and seed % 4 == 3:
+        # one quarter of the calls encode the missing labels with a reserved number (consistently on strategy
+        # and models): validity of the batch must not depend on the sentinel
+        if regression:
+            ml, classes = -999.0, zoo.REG
+            y = np.where(np.isnan(y), ml, y)
+        else:
+            ml = -1
+            y = np.where(np.isnan(y), ml, y).astype(int)
     return {
-        "X": X, "y": y, "candidates": candidates, "batch_size": int(sc["bs"]), "classes": (0, 1),
-        "missing_label": np.nan, "rows_of": S if amode == "rows" else None,
+        "X": X, "y": y, "candidates": candidates, "batch_size": int(sc["bs"]), "classes": classes,
+        "missing_label": ml, "rows_of": S if amode == "rows" else None,
         "abstract": {"n": n, "labeled": labeled, "mode": amode, "S": sorted(S) if amode == "idx" else [],
                      "M": M, "bs": int(sc["bs"]), "kind": entry.selection},
     }
@@ -133,7 +149,7 @@ def events_of(result, return_utilities, width):
 
 
 def record_query(entry, sc, seed, return_utilities, variant=0):
-    conc = concretise(sc, entry, seed, dup=True)
+    conc = concretise(sc, entry, seed, dup=True, sentinel=True)
     ab_ = conc["abstract"]
     try:
         res = call_query(entry, conc, seed, return_utilities, variant)
